@@ -448,6 +448,16 @@ static struct Register {
 		{ Cfg c = flat; c.ledgerOnly = true;
 		  addUnit<PolPlain<ST> >("C08/queue/flat", 0, c, 5, 30, 0, 0); }
 #endif
+#if SEL(20, 0)
+		addUnit<PolPlain<ST> >("C20/queue-flat/single", 0, flat, 4, 5, 0, 0);
+		addUnit<PolPlain<VThreading> >("C20/queue-flat/vthreading", 0, flat, 4, 5, 0, 0);
+		addUnit<PolPlain<MT> >("C20/queue-flat/stdmutex", 0, flat, 4, 5, 0, 0);
+		addUnit<PolPlain<eventpp::GeneralThreading<eventpp::SpinLock, std::atomic, std::condition_variable_any> > >("C20/queue-flat/spinlock", 0, flat, 4, 5, 0, 0);
+#endif
+#if SEL(20, 1)
+		addUnit<PolPlain<ST> >("C20/queue-nested/single", 0, nestC, 3, 4, 1, 1);
+		addUnit<PolPlain<MT> >("C20/queue-nested/stdmutex", 0, nestC, 3, 4, 1, 1);
+#endif
 #if SEL(11, 0)
 		{ Cfg c = nestC; c.K = 2;
 		  addUnit<PolPlain<ST> >("C11/sequential/listener-observes", 0, c, 4, 4, 1, 2); }
